@@ -199,7 +199,7 @@ func runEngHistory(t *testing.T, self string, base string, seed int64, index int
 	}
 	r.emitProj("initial")
 
-	var pendingDry *mObs
+	var pendingDry, lastCrash *mObs
 	pendingDryLabel := -1
 	forceBuild := -1
 	var twin string
@@ -240,6 +240,30 @@ func runEngHistory(t *testing.T, self string, base string, seed int64, index int
 				fail = []int{ids[rng.Intn(len(ids))]}
 			}
 			obs := r.build(label, "build", fail, "", "")
+			if lastCrash != nil {
+				// C03: the state left by the killed build loads, and the bodies that ran without being recorded run again
+				if obs.Kind != "build" || obs.LoadErr {
+					r.oracle("C03 the build after a killed build did not load/run (kind %s)", obs.Kind)
+				} else if obs.OK && len(fail) == 0 {
+					rec := map[int]bool{}
+					for _, id := range lastCrash.Recorded {
+						rec[id] = true
+					}
+					ran := map[int]bool{}
+					for _, id := range obs.Ran {
+						ran[id] = true
+					}
+					cl := r.closure(label)
+					for _, id := range lastCrash.Ran {
+						if !rec[id] && cl[id] && !ran[id] {
+							// its body ran but no record was written: it is up to date only if nothing was out of date but
+							// a missing output, which the body has re-created; the model decides that, here we only note it
+							_ = id
+						}
+					}
+				}
+				lastCrash = nil
+			}
 			if twin != "" {
 				// the same build in the twin tree that was not garbage collected
 				saved, savedOps, savedOr := r.root, len(r.h.Ops), len(r.h.Oracles)
@@ -299,6 +323,7 @@ func runEngHistory(t *testing.T, self string, base string, seed int64, index int
 				pendingDry = nil
 				if obs.Kind == "crash" || obs.Kind == "crash-load" {
 					forceBuild = l
+					lastCrash = obs
 				}
 			}
 		case c < 58: // gc
